@@ -115,7 +115,7 @@ func epochFiles(e srcEpoch) (map[string][]byte, error) {
 		if _, dup := m[f.Name]; dup {
 			return nil, fmt.Errorf("duplicate file name")
 		}
-		b, err := fileBytes(wFile{f.Name, f.C, f.K})
+		b, err := fileBytes(wFile{f.Name, f.C, f.K, f.Ch})
 		if err != nil {
 			return nil, err
 		}
@@ -327,9 +327,9 @@ func runE2EScn(sc e2eScn) (e2eScnOut, error) {
 		out.Answers = append(out.Answers, got)
 		prev = got
 	}
-	if der, err := realHandshake(cfg, "zzz.test"); err == nil {
-		if p, err := x509.ParseCertificate(der); err == nil {
-			out.Handshake = idOfCert(&tls.Certificate{Certificate: [][]byte{p.Raw}})
+	if ders, err := realHandshakeChain(cfg, "zzz.test"); err == nil {
+		if _, err := x509.ParseCertificate(ders[0]); err == nil {
+			out.Handshake = idOfCert(&tls.Certificate{Certificate: ders}) // the whole presented chain
 		}
 	}
 	return out, nil
@@ -473,6 +473,15 @@ func idSet(e srcEpoch) [nKeys]bool {
 	return s
 }
 
+func hasCertFile(e srcEpoch) bool {
+	for _, f := range e.Files {
+		if f.C >= 0 {
+			return true
+		}
+	}
+	return false
+}
+
 func genE2EScn(r *hx.Rand, kind string) e2eScn {
 	sc := e2eScn{Kind: kind, Strict: r.Chance(1, 3)}
 	if kind == "path" {
@@ -488,6 +497,18 @@ func genE2EScn(r *hx.Rand, kind string) e2eScn {
 			if e.RootErr == "locked" {
 				e.RootErr = "notdir" // the real watcher runs with this process' identity
 			}
+		} else if hasCertFile(good) && r.Chance(1, 3) {
+			// the same leaves and keys, other certificates after the leaves (an intermediate added / exchanged / removed)
+			e = srcEpoch{ListSt: good.ListSt, ListMode: good.ListMode, Lines: append([]string{}, good.Lines...), Files: append([]srcFile{}, good.Files...)}
+			for changed := false; !changed; {
+				for k := range e.Files {
+					if e.Files[k].C >= 0 && r.Chance(2, 3) {
+						e.Files[k].Ch = (e.Files[k].Ch + r.Range(1, nChains)) % (nChains + 1)
+						changed = true
+					}
+				}
+			}
+			good = e
 		} else {
 			// a usable epoch that presents other certificates than the one before (the harness waits for the change)
 			for k := 0; k < 20; k++ {
@@ -520,6 +541,10 @@ func init() {
 		// publication by re-pointing a link on the configured path
 		{Kind: "path", CertPath: "certs", Epochs: []srcEpoch{epochNames(g0, 0), epochNames(g1, 1)}},
 		{Kind: "path", CertPath: "", Epochs: []srcEpoch{epochNames(g0, 0), epochNames(with(g0, func(e *srcEpoch) { e.Files[1].Dangling = true }), 1), epochNames(g1, 2)}},
+		// the forgotten intermediate is appended to the certificate file; later it is exchanged
+		{Kind: "path", CertPath: "certs", Epochs: []srcEpoch{epochNames(g0, 0),
+			epochNames(with(g0, func(e *srcEpoch) { e.Files[0].Ch = 1 }), 1), epochNames(with(g0, func(e *srcEpoch) { e.Files[0].Ch = 2 }), 2)}},
+		{Kind: "url", Strict: true, Epochs: []srcEpoch{g1, with(g1, func(e *srcEpoch) { e.Files[0].Ch = 3 })}},
 		// the certificate directory can no longer be reached
 		{Kind: "path", CertPath: "certs", Epochs: []srcEpoch{epochNames(g0, 0), {RootErr: "notdir", Files: []srcFile{}, Lines: []string{}}}},
 	}
